@@ -19,7 +19,7 @@ ASSUMPTIONS = ["saved-channel subsets are prefixes of the 384 acquired channels 
                "NPultra has no geometry-map reference in the fixtures: shank-map encoding only",
                "mux tables: NP1/NPultra 32 ADCs x 12 channels over 13 slots, NP2 24 ADCs x 16 channels over 16 slots (SpikeGLX muxTbl)"]
 REQUIRED = {"geometries_checked": 40, "joint_permutation_checked": 40, "encodings_compared": 10, "split_checked": 4, "grid_points": 1000,
-            "adc_checked": 40, "cached_tag_variants": 200}
+            "adc_checked": 40, "cached_tag_variants": 200, "lf_band_geometries": 20}
 CASE_TIMEOUT = 60.0
 KEYS = [("x", "x"), ("y", "y"), ("shank", "shank"), ("row", "row"), ("col", "col_out"), ("adc", "adc"), ("sample_shift", "sample_shift")]
 
@@ -122,6 +122,16 @@ def run_case(case):
                         res.check(set(g2s) == set(gs) and all(np.array_equal(g2s[k], gs[k]) for k in gs), "geometry:depends-on-cached-tag",
                                   f"{label}: the same header fields with the parser's cached tag neuropixelVersion={stale!r} give another geometry "
                                   f"(keys differing: {[k for k in gs if k not in g2s or not np.array_equal(g2s[k], gs[k])]})", counter="cached_tag_variants")
+                    # the LF band of the same probe and selection (its own metadata file, snsApLfSy = 0,n,1): the same sites, groups and delays
+                    if kind in ("3A", "3B1", "3B2", "NPultra"):
+                        rec_lf = G.make(rng, kind=kind, stream="lf", sites=sites, encoding=enc, ns=3, raw=np.zeros((3, n + 1), np.int16), tilde=bool(rng.integers(0, 2)))
+                        f_lf = d / f"g{j}_{enc}.lf.meta"
+                        f_lf.write_text(rec_lf.meta_text)
+                        for sort in (True, False):
+                            g_lf = spikeglx.geometry_from_meta(spikeglx.read_meta_data(f_lf), sort=sort)
+                            gg = gs if sort else gu
+                            bad = [k for k in gg if k not in g_lf or not np.array_equal(g_lf[k], gg[k])]
+                            res.check(not bad, "geometry:lf-band-differs", f"{label}: geometry from the LF band's metadata (sort={sort}) differs from the AP band's in {bad}", counter="lf_band_geometries")
                     geos[enc] = gs
                     if not np.array_equal(rec.order, np.arange(n)):
                         nt += 1
